@@ -146,6 +146,7 @@ var props = map[string]propCfg{
 	"C13": {Quick: tc(1200, 50, 70), Thorough: tc(60000, 100, 900), Race: true},
 	"C14": {Quick: tc(4000, 200, 45), Thorough: tc(200000, 500, 900)},
 	"C15": {Quick: tc(4000, 100, 45), Thorough: tc(40000, 100, 900), Race: true},
+	"C16": {Quick: tc(3000, 100, 60), Thorough: tc(30000, 100, 900)},
 }
 
 func fatalf(f string, a ...any) {
